@@ -1463,3 +1463,24 @@ package sio
 //@   callsite (*Manager).reconnect skip
 //@   ensures dialed && !dialerr ==> drainers == 1 [C02.drainer.started.client]
 //@   ensures drainers <= 1 [C02.drainer.at.most.one.client]
+
+// C03: at most ONE acknowledgement packet per received event, whatever the handler (or several handlers of the same
+// event) do with the ack function: the first call sends it (with the id and values of that call), later calls do not.
+//@ func (*serverSocket).onPacket$1
+//@   opt safety off
+//@   ghost n int = 0
+//@   callsite Log skip
+//@   callsite (*serverSocket).sendAckPacket skip
+//@     requires arg0 == ackID && arg1 == values && sent [C03.srv.ack.reply.values]
+//@     update n = n + 1
+//@   ensures old(sent) ==> n == 0 [C03.srv.ack.at.most.once]
+//@   ensures !old(sent) ==> n == 1 && sent [C03.srv.ack.first.reply.sent]
+//@ func (*clientSocket).onPacket$1
+//@   opt safety off
+//@   ghost n int = 0
+//@   callsite Log skip
+//@   callsite (*clientSocket).sendAckPacket skip
+//@     requires arg0 == ackID && arg1 == values && sent [C03.cli.ack.reply.values]
+//@     update n = n + 1
+//@   ensures old(sent) ==> n == 0 [C03.cli.ack.at.most.once]
+//@   ensures !old(sent) ==> n == 1 && sent [C03.cli.ack.first.reply.sent]
